@@ -258,6 +258,27 @@ func e1Explore(sc *e1Scenario, col *evid.Collector, itemBase *int) {
 	dfs(root, cps, 0)
 }
 
+// e1ExploreTiers explores the scenarios of a check. In the thorough tier they
+// are first explored at the quick tier's depth, then at the thorough depth, so
+// that a run stopped by its time cap has covered every scenario at least as
+// deeply as the quick tier instead of only the first scenarios.
+func e1ExploreTiers(mk func(thorough bool) []*e1Scenario, prep func([]*e1Scenario), col *evid.Collector) {
+	item := 0
+	tiers := []bool{false}
+	if evid.Thorough() {
+		tiers = []bool{false, true}
+	}
+	for _, th := range tiers {
+		scs := mk(th)
+		if prep != nil {
+			prep(scs)
+		}
+		for _, sc := range scs {
+			e1Explore(sc, col, &item)
+		}
+	}
+}
+
 func e1Replayer(scs []*e1Scenario, col *evid.Collector) bool {
 	rf := evid.ReplayFile()
 	if rf == "" {
